@@ -206,6 +206,9 @@ def worker(prop, fin, fout):
                 obs = mod.run_impl(case)
                 ci = canon_i(case, obs)
                 rec["w"] = to_wire(ci)
+                if hasattr(mod, "wire_from"):
+                    # the model's input is taken from what the implementation run saw (frames, tokens, paths)
+                    rec["mw"] = to_wire(mod.wire_from(case, obs))
                 try:
                     rec["o"] = mod.oracle(case, obs)
                 except Exception as e:
@@ -234,10 +237,13 @@ class Evaluator:
         """-> list of dict(case, impl, model, diverges, oracle) ; oracle = None or failure-class string"""
         self.k += 1
         mod = self.mod
-        wires = [to_wire(mod.wire(c)) for c in cases]
         t0 = time.time()
         impl = run_impl(self.prop, cases, self.tmp, tag="i%d" % self.k)
         t1 = time.time()
+        if hasattr(mod, "wire_from"):
+            wires = [i.pop("mw", "()") if "fail" not in i else "()" for i in impl]
+        else:
+            wires = [to_wire(mod.wire(c)) for c in cases]
         model = run_model(mod.MODEL, wires, self.tmp)
         t2 = time.time()
         self.t_impl, self.t_model = t1 - t0, t2 - t1
